@@ -362,6 +362,14 @@ def shard_main(argv: list[str]) -> int:
     err = None
     try:
         fixed = list(getattr(mod, "fixed_cases", lambda t: [])(tier))
+        # witnesses of recorded findings are always replayed: an open one shows that the finding
+        # still reproduces, a fixed one is a regression case
+        seen_fixed = {canonical(d) for d in fixed}
+        for finding in col.findings:
+            witness = finding.get("witness")
+            if witness is not None and canonical(witness) not in seen_fixed:
+                seen_fixed.add(canonical(witness))
+                fixed.append(witness)
         for i, desc in enumerate(fixed):
             if i % nshards != k:
                 continue
